@@ -17,6 +17,9 @@
  * One observation line per script line; same format as ocaml/driver_C06.ml. */
 #include "vsess.h"
 #include <sys/ioctl.h>
+#include <poll.h>
+#include <netinet/in.h>
+#include <arpa/inet.h>
 #include <sys/time.h>
 #include <sys/select.h>
 #include <ctype.h>
@@ -43,7 +46,9 @@ static conn C[MAXC];
 static rfbScreenInfoPtr S;
 static long long vnow_ms;          /* virtual clock */
 static long long waited_ms;        /* virtual time spent in timed-out waits */
-static int next_id, next_vo;
+static int next_id, next_vo, next_hold;
+#define UDP_ID 255
+static int udp_hold, udp_port, udp_peer = -1;   /* the UDP input channel (udpon / udp) */
 
 /* ---- event log of the current script line ---- */
 static char *ev; static size_t evn, evcap;
@@ -92,10 +97,15 @@ static void cb_gone(rfbClientPtr cl) {
   int i; for (i = 0; i < MAXC; i++) if (C[i].used && C[i].cl == cl) C[i].cl = NULL;
 }
 static enum rfbNewClientAction cb_new(rfbClientPtr cl) {
+  if (cl->screen->udpSock != RFB_INVALID_SOCKET && cl->sock == cl->screen->udpSock) {
+    /* rfbNewUDPClient: the record callbacks of the UDP channel are attributed to */
+    cl->clientData = (void *)(intptr_t)(UDP_ID + 1);
+    return udp_hold ? RFB_CLIENT_ON_HOLD : RFB_CLIENT_ACCEPT;
+  }
   cl->clientData = (void *)(intptr_t)(next_id + 1);
   cl->clientGoneHook = cb_gone;
   if (next_vo) cl->viewOnly = TRUE;
-  return RFB_CLIENT_ACCEPT;
+  return next_hold ? RFB_CLIENT_ON_HOLD : RFB_CLIENT_ACCEPT;
 }
 
 /* ---- the deterministic network ---- */
@@ -246,6 +256,8 @@ static void teardown(void) {
   }
   memset(C, 0, sizeof C);
   vnow_ms = 0; waited_ms = 0;
+  if (udp_peer >= 0) close(udp_peer);
+  udp_peer = -1; udp_port = 0; udp_hold = 0; next_hold = 0;
 }
 
 #ifdef VDRV_CLIP
@@ -325,8 +337,9 @@ int main(void) {
       printf("sx %d %d\n", ScaleX(&f, &t, a[2]), ScaleY(&f, &t, a[2])); continue;
     }
     if (!S) { printf("?? no screen: %s\n", line); continue; }
-    if (!strcmp(op, "connect") || !strcmp(op, "wsconnect")) {
+    if (!strcmp(op, "connect") || !strcmp(op, "wsconnect") || !strcmp(op, "hconnect")) {
       int sv[2], i, sz = 4 << 20; conn *c = NULL; int isws = op[0] == 'w';
+      next_hold = op[0] == 'h';      /* hconnect: newClientHook answers RFB_CLIENT_ON_HOLD */
       a[2] = 1;
       n = sscanf(line + pos, "%d %d %d", &a[0], &a[1], &a[2]);     /* wsconnect: optional framing mode 1..3 */
       if (n == 3) n = 2;
@@ -385,6 +398,41 @@ int main(void) {
       conn *c; n = sscanf(line + pos, "%d %d", &a[0], &a[1]); c = by_id(a[0]);
       if (c && c->cl) c->cl->viewOnly = a[1] ? TRUE : FALSE;
       print_state("vo"); continue;
+    }
+    if (!strcmp(op, "release")) {     /* rfbStartOnHoldClient */
+      conn *c; n = sscanf(line + pos, "%d", &a[0]); c = by_id(a[0]);
+      if (c && c->cl && c->cl->onHold) rfbStartOnHoldClient(c->cl);
+      print_state("release"); continue;
+    }
+    if (!strcmp(op, "udpon")) {       /* udpon <hold>: what rfbInitSockets does for screen->udpPort != 0 (loopback, ephemeral port) */
+      n = sscanf(line + pos, "%d", &a[0]);
+      if (S->udpSock == RFB_INVALID_SOCKET) {
+        rfbSocket u = rfbListenOnUDPPort(0, htonl(INADDR_LOOPBACK));
+        if (u != RFB_INVALID_SOCKET) {
+          struct sockaddr_in sa; socklen_t al = sizeof sa;
+          getsockname(u, (struct sockaddr *)&sa, &al);
+          S->udpPort = ntohs(sa.sin_port); udp_port = S->udpPort; udp_hold = n == 1 && a[0];
+          S->udpSock = u;
+          FD_SET(u, &(S->allFds)); S->maxFd = rfbMax((int)u, S->maxFd);
+        }
+      }
+      print_state("udpon"); continue;
+    }
+    if (!strcmp(op, "udp")) {         /* udp <hex>: one datagram from the UDP peer, then one rfbProcessEvents pass */
+      unsigned char b[64]; size_t nb = 0; const char *h = line + pos;
+      while (*h == ' ') h++;
+      while (isxdigit((unsigned char)h[0]) && isxdigit((unsigned char)h[1]) && nb < sizeof b) { b[nb++] = (unsigned char)(hexval(h[0]) * 16 + hexval(h[1])); h += 2; }
+      if (udp_port) {
+        struct sockaddr_in sa; struct pollfd pf;
+        memset(&sa, 0, sizeof sa);
+        if (udp_peer < 0) udp_peer = socket(AF_INET, SOCK_DGRAM, 0);
+        sa.sin_family = AF_INET; sa.sin_port = htons((unsigned short)udp_port); sa.sin_addr.s_addr = htonl(INADDR_LOOPBACK);
+        sendto(udp_peer, b, nb, 0, (struct sockaddr *)&sa, sizeof sa);
+        pf.fd = S->udpSock; pf.events = POLLIN; pf.revents = 0; poll(&pf, 1, 500);
+      }
+      rfbProcessEvents(S, 0);
+      drain_all();
+      print_state("udp"); continue;
     }
     if (!strcmp(op, "tick")) { n = sscanf(line + pos, "%d", &a[0]); vnow_ms += a[0]; print_state("tick"); continue; }
     if (!strcmp(op, "p")) {
